@@ -184,10 +184,9 @@ func readZipFile(zf *zip.File) ([]byte, error) {
 
 func verifyCatalog(zf *zip.File, sig *AppxSignature) error {
 	if zf == nil {
-		if sig.IsBundle {
-			return nil
-		}
-		return errors.New("missing security catalog")
+		// bundles and packages without executables have none; that the
+		// signature agrees about its absence was checked with the digests
+		return nil
 	}
 	blob, err := readZipFile(zf)
 	if err != nil {
